@@ -590,7 +590,9 @@ fn run_line(line: &str) -> String {
                 if op == "sweep" {
                     for v in kernel(k, p1, p2, x) {
                         f.add(v);
+                        f.1 -= 1;
                     }
+                    f.1 += 1;
                 } else {
                     if let Err(e) = oracle(k, p1, p2, x) {
                         return format!("bad {}", e);
